@@ -3,18 +3,59 @@
 (* by Reset, each starting with Cfg) against the rule monitor BusRules.                        *)
 EXTENDS BusRules, Json, IOUtils
 
+CONSTANTS FixF2, FixF3, FixF14
+M == INSTANCE FdlStation
+
+(* ---- layer-M conformance of a logged poll (hook view before/after, inputs as realised) *)
+LasOfJson(r) == [las |-> ToSet(r.las), lst |-> r.lst, ns |-> r.ns, ps |-> r.ps]
+StateOfJson(v) == [v EXCEPT !.ring = LasOfJson(v.ring)]
+(* canonical form: fields that are meaningless in the current state are blanked (as the harness does) *)
+JunkAt(buf) == LET js == {i \in DOMAIN buf : buf[i].k = "junk"} IN IF js = {} THEN 0 ELSE CHOOSE i \in js : \A j \in js : i <= j
+Canon(s) ==
+  LET f == s.fsm IN
+  [s EXCEPT !.buf = IF JunkAt(@) = 0 THEN @ ELSE SubSeq(@, 1, JunkAt(@)),     \* undecodable data hides what follows
+            !.tail = IF JunkAt(s.buf) = 0 THEN @ ELSE FALSE, !.sr = IF f \in {"Listen", "ActiveIdle"} THEN @ ELSE -1,
+            !.np = IF f = "ActiveIdle" THEN @ ELSE -1,
+            !.cc = IF f \in {"Listen", "ActiveIdle"} THEN @ ELSE 0,
+            !.att = IF f \in {"PassToken", "CheckPass"} THEN @ ELSE 1,
+            !.dogap = IF f = "PassToken" THEN @ ELSE FALSE,
+            !.step = IF f = "Claim" THEN @ ELSE "First",
+            !.aw = IF f = "AwaitStatus" \/ (f = "Claim" /\ s.step = "Await") THEN @ ELSE -1,
+            !.fcd = IF f = "UseToken" THEN @ ELSE FALSE,
+            !.fa = IF f \in {"UseToken", "AwaitData"} THEN @ ELSE -1,
+            !.dat = IF f = "AwaitData" THEN @ ELSE -1]
+NormCb(c) == [k |-> c.k, app |-> c.app,
+              a |-> IF c.k = "reply" THEN (IF c.a = "sc" THEN "sc" ELSE "resp") ELSE c.a]
+MeOf(cfg, e) == [ts |-> e.st, hsa |-> cfg.hsa, g |-> cfg.gap, napps |-> cfg.napps[Idx(cfg, e.st)]]
+Explained(cfg, e, panicked) ==
+  LET r == M!DoPoll(MeOf(cfg, e), StateOfJson(e.mpre), e.in) IN
+  IF panicked THEN r.s.panic # "none"
+  ELSE /\ r.s.panic = "none"
+       /\ Canon(r.s) = StateOfJson(e.mpost)
+       /\ r.tx = e.mtx
+       /\ [i \in DOMAIN r.cbs |-> NormCb(r.cbs[i])] = e.mcbs
+HasM(e) == e.ev = "Poll" /\ "mpre" \in DOMAIN e
+
 Rec == ndJsonDeserialize(IOEnv.TRACE)
 
-VARIABLES l, rs, bad, cov, dead, runs
-vars == <<l, rs, bad, cov, dead, runs>>
+VARIABLES l, rs, bad, cov, dead, runs, conf, drift
+vars == <<l, rs, bad, cov, dead, runs, conf, drift>>
 
 NoCfg == [none |-> TRUE]
 
-TInit == l = 1 /\ rs = NoCfg /\ bad = <<>> /\ cov = [c \in AllClauses |-> 0] /\ dead = TRUE /\ runs = 0
+TInit == l = 1 /\ rs = NoCfg /\ bad = <<>> /\ cov = [c \in AllClauses |-> 0] /\ dead = TRUE /\ runs = 0 /\ conf = [n |-> 0, ok |-> 0] /\ drift = <<>>
 
 TNext ==
   /\ l <= Len(Rec)
   /\ l' = l + 1
+  /\ LET e == Rec[l]
+         m == HasM(e) /\ ~dead
+         ex == IF m THEN Explained(rs.cfg, e, e.panicked) ELSE TRUE
+     IN /\ conf' = IF m THEN [n |-> conf.n + 1, ok |-> conf.ok + (IF ex THEN 1 ELSE 0)] ELSE conf
+        /\ drift' = IF m /\ ~ex /\ Len(drift) < 20 THEN Append(drift, l) ELSE drift
+        /\ (m /\ ~ex /\ Len(drift) < 2) =>
+              LET r == M!DoPoll(MeOf(rs.cfg, e), StateOfJson(e.mpre), e.in) IN
+              PrintT(<<"DRIFT", l, "model", Canon(r.s), r.tx, r.cbs, "real", StateOfJson(e.mpost), e.mtx, e.mcbs>>)
   /\ LET e == Rec[l] IN
      IF e.ev = "Cfg" THEN rs' = RuleInit(e) /\ dead' = FALSE /\ runs' = runs + 1 /\ UNCHANGED <<bad, cov>>
      ELSE IF e.ev = "Reset" THEN dead' = TRUE /\ UNCHANGED <<rs, bad, cov, runs>>
@@ -30,6 +71,6 @@ TNext ==
 TSpec == TInit /\ [][TNext]_vars
 
 Done == l = Len(Rec) + 1 =>
-          PrintT(<<"RESULT", ToJson([n |-> Len(Rec), bad |-> bad, cov |-> cov, conf |-> [n |-> 0, ok |-> 0], runs |-> runs])>>)
+          PrintT(<<"RESULT", ToJson([n |-> Len(Rec), bad |-> bad, cov |-> cov, conf |-> conf, drift |-> drift, runs |-> runs])>>)
 Complete == TLCGet("stats").diameter - 1 = Len(Rec)
 =============================================================================
